@@ -306,6 +306,27 @@ def _std_transfer(I, fr, t, c, pth):
                 fr.storev(dest, GenIt('enumerate', inner, 0) if name == 'enumerate' else inner)
                 return True
             return False
+        if name == 'flat_map' and len(args) == 2:
+            # evaluated eagerly, item by item, in order (what a sequential consumer such as collect observes)
+            inner = fr.operand(args[0])
+            cl = I._closure_value(fr, args[1])
+            if is_iter(inner) and cl is not None:
+                out = []
+                for item in drain(I, inner, where):
+                    cl = I._closure_value(fr, args[1])
+                    r = I._call_closure_rw(fr, cl[0], cl[1], [item], where)
+                    if is_iter(r):
+                        out.extend(drain(I, r, where))
+                    elif isinstance(r, Opt) and r.tag in ('some', 'none'):
+                        if r.tag == 'some':
+                            out.append(r.payload)
+                    elif isinstance(r, Agg):
+                        out.extend(r.items)
+                    else:
+                        raise NotDerivable('flat_map closure result is not a modelled sequence', where)
+                fr.storev(dest, SliceIt(out, 0))
+                return True
+            return False
         if name == 'scan' and len(args) == 3:
             # evaluated eagerly: the state lives in a place of its own and the closure gets `&mut state`
             inner = fr.operand(args[0])
